@@ -130,6 +130,9 @@ def run(specdir, module, cfg_text, extra_modules=None, workers="auto", timeout=6
         elif re.search(r"Invariant (\S+) is violated", out):
             r.status = "invariant"
             r.violated = re.search(r"Invariant (\S+) is violated", out).group(1)
+        elif re.search(r"Temporal property (\S+) was violated", out):
+            r.status = "property"
+            r.violated = re.search(r"Temporal property (\S+) was violated", out).group(1)
         elif "Temporal properties were violated" in out:
             r.status = "property"
         elif re.search(r"Action property (\S+) is violated", out):
